@@ -304,6 +304,37 @@ Example C06_padding_only_and_lowered_limit :
   map (fun s => (cs_in s, cs_buf s)) (cc_streams (fst r)) = [(mkIn 8192 0, 0)].
 Proof. vm_compute. repeat split. Qed.
 
+(* a stream starts with the window in force when it is OPENED (however long the request queued for
+   a slot and whatever SETTINGS frames were applied meanwhile) *)
+Theorem C06_new_stream_window_current : forall c hlen es c' out,
+  0 <= cc_init_win c <= 2147483647 ->
+  conn_step c (EOpen hlen es) = (c', out) -> out <> [] ->
+  exists s, cc_streams c' = s :: cc_streams c /\ cs_id s = cc_next_id c /\ cs_flow s = cc_init_win c /\
+            cs_in s = mkIn (cc_stream_in c) 0.
+Proof. exact new_stream_window_current. Qed.
+Print Assumptions C06_new_stream_window_current.
+
+(* frame-sequence invariant: in every reachable state, whatever event is handled next - also one
+   that answers a peer frame arriving at any moment - the frames written in that critical
+   section leave no header block open; pieces with that property compose to a contiguous trace *)
+Theorem C06_step_blocks_whole : forall prio_len prio_last stream_in conn_flow,
+  cfg_ok prio_len prio_last stream_in conn_flow ->
+  forall evs e,
+  hb_run 0 (snd (conn_step (fst (conn_run (conn0 prio_len prio_last stream_in conn_flow) evs)) e)) = Some 0.
+Proof. exact reachable_step_blocks_whole. Qed.
+Print Assumptions C06_step_blocks_whole.
+
+Theorem C06_blocks_compose : forall a b, hb_run 0 a = Some 0 -> hb_run 0 (a ++ b) = hb_run 0 b.
+Proof. exact hb_run_app. Qed.
+Print Assumptions C06_blocks_compose.
+
+(* a PING ACK between HEADERS and CONTINUATION is not a contiguous trace, and the monitor rejects it *)
+Example C06_ping_ack_inside_block_rejected :
+  hb_run 0 [C (FHeaders 1 16384 false true); C (FPing true); C (FContinuation 1 100 true)] = None /\
+  accepts (mon_init 1000 1000)
+    [C (FHeaders 1 16384 false true); P (FPing false); C (FPing true); C (FContinuation 1 100 true)] = false.
+Proof. vm_compute. split; reflexivity. Qed.
+
 (* non-vacuity: a legal configuration (priority fields on HEADERS, Firefox-like PRIORITY frames up
    to stream 13, stream window 1000) and an interleaving with a 40000-byte header block, the
    peer lowering MAX_CONCURRENT_STREAMS to 1 and INITIAL_WINDOW_SIZE to 100 and then 0 (window
